@@ -59,3 +59,34 @@ theorem tiles_sorted (rs : List (Nat × Nat)) (s f : Nat) (h : Tiles s rs f) :
       · have := hb r hr; omega
 
 end Wv.Water
+
+namespace Wv.Water
+
+def layersBytes : List Layer → Nat
+  | [] => 0
+  | l :: r => (if l.bitmap then 8 else 0) + l.vdata.getD 0 + layersBytes r
+
+def entryBytes (e : Entry) : Nat :=
+  (if e.layers.length = 0 then 0 else 24 * e.layers.length + layersBytes e.layers) + (if e.attrs then 16 else 0)
+
+theorem layLayers_end (ls : List Layer) (v : Nat) : (layLayers v ls).2 = v + layersBytes ls := by
+  induction ls generalizing v with
+  | nil => simp [layLayers, layersBytes]
+  | cons l r ih =>
+    obtain ⟨bm, vd⟩ := l
+    simp only [layLayers, layersBytes]
+    rw [ih]
+    cases bm <;> cases vd <;> simp <;> omega
+
+theorem layEntry_end (e : Entry) (pos : Nat) : (layEntry pos e).2 = pos + entryBytes e := by
+  unfold layEntry entryBytes
+  by_cases hn : e.layers.length = 0
+  · simp only [hn, if_true]; cases e.attrs <;> simp
+  · simp only [hn, if_false, layLayers_end]; cases e.attrs <;> simp <;> omega
+
+theorem layAll_end (es : List Entry) (pos : Nat) : (layAll pos es).2 = pos + (es.map entryBytes).sum := by
+  induction es generalizing pos with
+  | nil => simp [layAll]
+  | cons e r ih => simp only [layAll, List.map_cons, List.sum_cons]; rw [ih, layEntry_end]; omega
+
+end Wv.Water
